@@ -100,6 +100,8 @@ def gen_network(rng, degenerate=False):
         branches.append({"n1": a, "n2": b, "el": el})
     rng.shuffle(branches)
     rec = {"kind": "network", "branches": branches}
+    if rng.random() < 0.3:
+        rec["np"] = True          # element values are numpy scalars
     if zero != "0" or rng.random() < 0.5:
         rec["zero"] = zero
     if degenerate:
@@ -140,6 +142,8 @@ def gen_ssm_network(rng):
               ("1", "0", {"k": "resistor", "name": "R", "args": {"R": R}}), ("1", "2", {"k": "resistor", "name": "R2", "args": {"R": R2}}),
               ("1", "0", C), ("2", "0", C2)]
         cv, lv = {"C": rng.choice(C_VALUES), "C2": rng.choice(C_VALUES)}, {}
+        if rng.random() < 0.5:
+            cv = {"C2": cv["C2"], "C": cv["C"]}          # insertion order of a value dictionary is the state order
     return ({"kind": "network", "branches": [{"n1": a, "n2": b, "el": e} for a, b, e in br]}, cv, lv)
 
 
